@@ -1,6 +1,7 @@
 package harness
 
 import (
+	"encoding/json"
 	"io"
 	"log"
 	"os"
@@ -23,5 +24,19 @@ func TestMain(m *testing.M) {
 		os.Stderr = f
 	}
 	uuid.SetRand(simrt.UUIDReader{})
+	kf := os.Getenv("VERIF_KNOWN")
+	if kf == "" {
+		kf = "/verif/known_findings.json"
+	}
+	if b, err := os.ReadFile(kf); err == nil {
+		var doc struct {
+			Findings []Finding `json:"findings"`
+		}
+		if err := json.Unmarshal(b, &doc); err != nil {
+			os.Stdout.WriteString("known_findings.json: " + err.Error() + "\n")
+			os.Exit(2)
+		}
+		KnownFindings = doc.Findings
+	}
 	os.Exit(m.Run())
 }
